@@ -1146,6 +1146,52 @@ func ruleWaiterWoken(c *Ctx, p *core.Program, r *doRoles, rule string) {
 			}
 		}
 	}
+	// the wait may live in a helper that is handed the channel
+	recvChans := func(fn *ssa.Function) []ssa.Value {
+		var out []ssa.Value
+		for _, b := range fn.Blocks {
+			for _, in := range b.Instrs {
+				switch x := in.(type) {
+				case *ssa.Select:
+					for _, st := range x.States {
+						if st.Dir == types.RecvOnly && !isCtxDone(st.Chan) {
+							out = append(out, st.Chan)
+						}
+					}
+				case *ssa.UnOp:
+					if x.Op == token.ARROW && !isCtxDone(x.X) {
+						out = append(out, x.X)
+					}
+				}
+			}
+		}
+		return out
+	}
+	for _, call := range core.Calls(r.Sender) {
+		g := core.StaticFn(call)
+		if g == nil || g.Blocks == nil || pkgOf(g) == nil || pkgOf(g).Path() != core.PkgCh {
+			continue
+		}
+		for _, ch := range recvChans(g) {
+			for i, pr := range g.Params {
+				if stripConv(ch) != ssa.Value(pr) || i >= len(call.Common().Args) {
+					continue
+				}
+				a := stripConv(call.Common().Args[i])
+				if ct, ok := a.(*ssa.ChangeType); ok {
+					a = ct.X
+				}
+				if ld, ok := a.(*ssa.UnOp); ok && ld.Op == token.MUL {
+					if fv, ok := ld.X.(*ssa.FreeVar); ok {
+						uses = append(uses, chanUse{fv, call.(ssa.Instruction)})
+					}
+				}
+				if fv, ok := a.(*ssa.FreeVar); ok {
+					uses = append(uses, chanUse{fv, call.(ssa.Instruction)})
+				}
+			}
+		}
+	}
 	n := 0
 	for _, u := range uses {
 		n++
